@@ -53,6 +53,10 @@ def _monotonic_factorization(arr_list, total_len):
 
     arr_num = 0
     arr = arr_list[arr_num]
+    while len(arr) == 0:
+        # empty chunks hold no rows (total_len > 0: a non-empty one follows)
+        arr_num += 1
+        arr = arr_list[arr_num]
 
     if not (arr[0] == arr[0]):
         # a null (NaN / NaT) never belongs to a run
@@ -64,9 +68,10 @@ def _monotonic_factorization(arr_list, total_len):
     prev = arr[0]
 
     cur_arr_pos = 0
+    i = 0
     for i in range(1, total_len):
         cur_arr_pos += 1
-        if cur_arr_pos == len(arr):
+        while cur_arr_pos == len(arr):
             arr_num += 1
             arr = arr_list[arr_num]
             cur_arr_pos = 0
@@ -157,6 +162,8 @@ def monotonic_factorization(arr: ArrayType1D) -> Tuple[int, np.ndarray, pd.Index
     if arr_list[0].dtype.kind == "O":
         # object arrays (strings, nullable extension types) cannot be scanned in nopython mode
         return 0, np.empty(0, dtype=np.uint32), pd.Index([], dtype=arr_list[0].dtype)
+    if total_len == 0:
+        return 0, np.empty(0, dtype=np.uint32), pd.Index([], dtype=pd_type)
     cutoff, codes, labels = _monotonic_factorization(arr_list, total_len)
     # Convert labels to pd.Index with proper dtype handling
     if pd_type.kind == "M":
